@@ -628,7 +628,8 @@ def run_group(ctx, g, obj):
     for s in solvers:
         procs[s] = Proc(base + SOLVER_ARGS[s], ctx.work, MEM_KB)
     done = {}
-    deadline = time.time() + g['timeout'] * (3 if ctx.tier == 'thorough' else 1)
+    # thorough: triple budget, except for optional groups (known not to discharge within their budget: no point in waiting three times as long)
+    deadline = time.time() + g['timeout'] * (3 if (ctx.tier == 'thorough' and not g.get('optional')) else 1)
     try:
         while procs and time.time() < deadline:
             if fbproc is not None and (fbproc.poll() is not None or time.time() - fbproc.t0 > 300):
